@@ -250,6 +250,7 @@ long rp_explore_from (FILE *sched, const struct rp_harness *h, long runs, unsign
 }
 
 void rp_print_stats (const struct rp_stats *st, FILE *out) {
+	rt_report_soft (out);
 	fprintf (out, "STATS tours=%ld steps=%ld matched=%ld diverged=%ld mismatches=%ld violations=%ld nontrivial=%ld\n",
 		 st->tours, st->steps, st->matched_tours, st->diverged_tours, st->mismatches, st->violations, st->nontrivial);
 	if (st->first_mismatch[0]) fprintf (out, "MISMATCH %s\n", st->first_mismatch);
